@@ -2,7 +2,7 @@ use marrow::view::{BitsWithOffset, StructView};
 use serde::de::{value::StrDeserializer, DeserializeSeed, MapAccess, SeqAccess, Visitor};
 
 use crate::internal::{
-    error::{fail, set_default, Context, ContextSupport, Error, Result},
+    error::{fail, set_default, try_, Context, ContextSupport, Error, Result},
     schema::get_strategy_from_metadata,
     utils::ChildName,
 };
@@ -50,6 +50,13 @@ impl<'a> StructDeserializer<'a> {
             len,
         }
     }
+
+    fn item<'this>(&'this self, idx: usize) -> Result<StructItemDeserializer<'this, 'a>> {
+        if idx >= self.len {
+            fail!("Out of bounds access");
+        }
+        Ok(StructItemDeserializer::new(self, idx))
+    }
 }
 
 impl Context for StructDeserializer<'_> {
@@ -79,9 +86,7 @@ impl<'de> RandomAccessDeserializer<'de> for StructDeserializer<'de> {
     }
 
     fn deserialize_map<V: Visitor<'de>>(&self, visitor: V, idx: usize) -> Result<V::Value> {
-        visitor
-            .visit_map(StructItemDeserializer::new(self, idx))
-            .ctx(self)
+        try_(|| visitor.visit_map(self.item(idx)?)).ctx(self)
     }
 
     fn deserialize_struct<V: Visitor<'de>>(
@@ -91,9 +96,7 @@ impl<'de> RandomAccessDeserializer<'de> for StructDeserializer<'de> {
         visitor: V,
         idx: usize,
     ) -> Result<V::Value> {
-        visitor
-            .visit_map(StructItemDeserializer::new(self, idx))
-            .ctx(self)
+        try_(|| visitor.visit_map(self.item(idx)?)).ctx(self)
     }
 
     fn deserialize_tuple<V: Visitor<'de>>(
@@ -102,9 +105,7 @@ impl<'de> RandomAccessDeserializer<'de> for StructDeserializer<'de> {
         visitor: V,
         idx: usize,
     ) -> Result<V::Value> {
-        visitor
-            .visit_seq(StructItemDeserializer::new(self, idx))
-            .ctx(self)
+        try_(|| visitor.visit_seq(self.item(idx)?)).ctx(self)
     }
 
     fn deserialize_tuple_struct<V: Visitor<'de>>(
@@ -114,9 +115,7 @@ impl<'de> RandomAccessDeserializer<'de> for StructDeserializer<'de> {
         visitor: V,
         idx: usize,
     ) -> Result<V::Value> {
-        visitor
-            .visit_seq(StructItemDeserializer::new(self, idx))
-            .ctx(self)
+        try_(|| visitor.visit_seq(self.item(idx)?)).ctx(self)
     }
 }
 
